@@ -209,3 +209,5 @@ def run(rep, programs):
     c01.r_toggle_dispatch(rep, prog)
     from props import c03
     c03.r_split_order(rep, prog)      # a partial free of a whole huge frame splits exactly that huge frame
+    from props import c15
+    c15.r_reserve_before_lower(rep, prog)    # a targeted request hands its frame to Lower::get and charges that frame's tree
